@@ -127,6 +127,7 @@ func runJoinProperty(c *Ctx, id string) {
 		r.Doc("J6", "after an ingest, before the next receive: the buffer is sent or a fresh len(B) < JoinSize holds", 3)
 		r.Doc("J7", "unite: fit facts at ingest and forward", 1)
 		r.Doc("J8", "no path leaves a loop function with elements in the buffer (except after a stop clause); entry defers close(output)", 8)
+		r.Doc("J9", "(= C08 K1, K2, K4) what was delivered is not written again: copy-mode payloads are clones, a no-copy buffer is reused only after the release", 6)
 		for _, jr := range jrs {
 			checkJ1(c, jr)
 			checkJ2(c, jr)
@@ -135,6 +136,7 @@ func runJoinProperty(c *Ctx, id string) {
 			checkJ6(c, jr)
 			checkJ7(c, jr)
 			checkJ8(c, jr)
+			joinHandOver(c, jr, "J9")
 		}
 	case "C11":
 		r.MinCount["J0"] = 1
@@ -144,6 +146,7 @@ func runJoinProperty(c *Ctx, id string) {
 		r.Doc("J5", "non-empty sends; forward only len >= JoinSize", 2)
 		r.Doc("J7", "unite: fit facts at ingest and forward", 1)
 		r.Doc("J1", "each received slice is ingested or forwarded exactly once; end of input is recognised by the closed flag only (an empty or nil slice is data)", 2)
+		r.Doc("J9", "(= C08 K1, K2, K4) what was delivered is not written again: copy-mode payloads are clones, a no-copy buffer is reused only after the release", 2)
 		for _, jr := range jrs {
 			if !jr.unite {
 				continue
@@ -153,6 +156,20 @@ func runJoinProperty(c *Ctx, id string) {
 			checkJ34(c, jr)
 			checkJ5(c, jr)
 			checkJ7(c, jr)
+			joinHandOver(c, jr, "J9")
 		}
+	}
+}
+
+// joinHandOver (C03/J9, C11/J9 = C08 K1, K2, K4): a delivered slice that still shares memory with
+// the buffer is overwritten by the elements accepted next - for its holder an input element
+// vanishes from one output slice and shows up in another.
+func joinHandOver(c *Ctx, jr *joinRoles, rule string) {
+	sub := &Ctx{V1: c.V1, V2: c.V2, Tier: c.Tier, R: NewReport("tmp", c.Tier)}
+	checkK1(sub, jr)
+	checkK2(sub, jr)
+	checkK4(sub, jr)
+	for _, o := range sub.R.Obls {
+		c.R.Check(o.OK, rule, o.Key, o.Site, o.Detail, o.Detail)
 	}
 }
